@@ -46,6 +46,7 @@ ASSUMPTIONS = common.BASE_ASSUMPTIONS + [
 ]
 REAL_VS_STUB = common.REAL_VS_STUB
 QUICK_RUNS = 5200
+O_SLICE_UNITS = 40
 EXPECTED_PROBES = {
     t: ["history_runs", "thread_runs", "aborted_ops", "setattr_attempts", "delattr_attempts", "thread_switches", "cfgtp5_poll_ops", "config_ops", "construct_ops", "read_ops", "switch_inside__set_attribute"]
     for t in ("quick", "thorough")
@@ -597,6 +598,8 @@ def golden(op):
 
 def prepare(tier):
     """Compute cold goldens for the whole catalogue (parallel, before the pool forks)."""
+    if tier == "slice":
+        return  # a 12-unit slice computes the goldens it needs on demand (golden())
     cat = build_catalogue()
     ops = cat["ops"]
     todo = [op for op in ops if key(op) not in _GOLD]
